@@ -8,7 +8,7 @@ REPO = os.environ.get('PNC_REPO', '/repo')
 SRC = os.path.join(REPO, 'src')
 COQ = os.path.join(VERIF, 'coq')
 GUARD = 'PSEUDONETCDF_VERIF'
-NCPU = max(2, min(14, (os.cpu_count() or 4) - 2))
+NCPU = int(os.environ.get('PNC_NCPU', 0)) or max(2, min(14, (os.cpu_count() or 4) - 2))
 
 ALLOWED_AXIOMS = set()   # none needed so far; stdlib axioms would be listed here by name
 
@@ -67,13 +67,27 @@ class BuildResult:
         self.wall = 0.0
 
 
-def static_scan():
+def cone(pid):
+    """Coq source files (relative to coq/) that Props/<pid>.v and Corr/<pid>.v transitively import."""
+    todo = ['Props/%s.v' % pid, 'Corr/%s.v' % pid]
+    seen = []
+    while todo:
+        f = todo.pop()
+        if f in seen or not os.path.exists(os.path.join(COQ, f)):
+            continue
+        seen.append(f)
+        txt = re.sub(r'\(\*.*?\*\)', '', open(os.path.join(COQ, f)).read(), flags=re.S)
+        for m in re.finditer(r'From\s+PNC\s+Require\s+(?:Import|Export)\s+(.*?)\.(?:\s|$)', txt, flags=re.S):
+            for mod in m.group(1).split():
+                todo.append(mod.replace('.', '/') + '.v')
+    return sorted(seen)
+
+
+def static_scan(pid=None):
     bad = []
-    for root, _, files in os.walk(COQ):
-        for fn in files:
-            if not fn.endswith('.v'):
-                continue
-            p = os.path.join(root, fn)
+    files = cone(pid) if pid else coq_files()
+    for rel in files:
+            p = os.path.join(COQ, rel)
             txt = open(p).read()
             txt_nc = re.sub(r'\(\*.*?\*\)', '', txt, flags=re.S)
             # Variable/Hypothesis allowed only inside a Section
@@ -110,7 +124,8 @@ def build(pid, extra_targets=()):
     src = open(props_v).read()
     src_nc = re.sub(r'\(\*.*?\*\)', '', src, flags=re.S)
     r.theorems = re.findall(r'^\s*(?:Theorem|Lemma|Corollary|Example|Fact)\s+(\w+)', src_nc, flags=re.M)
-    r.forbidden = static_scan()
+    r.forbidden = static_scan(pid)
+    r.cone = cone(pid)
     lock = open(os.path.join(COQ, '.build.lock'), 'w')
     fcntl.flock(lock, fcntl.LOCK_EX)
     try:
@@ -275,12 +290,12 @@ def coq_eval_raw(corr_mod, body, workdir, name='eval'):
 
 # ----------------------------------------------------------------------------- known findings
 def load_known(pid):
-    p = os.path.join(VERIF, 'known_findings.json')
+    """known findings live in /verif/known_findings/<pid>.json (committed; never written at run time)"""
+    p = os.path.join(VERIF, 'known_findings', pid + '.json')
     if not os.path.exists(p):
         return [], []
     d = json.load(open(p))
-    return [f for f in d.get('findings', []) if f['property'] == pid], \
-           [f for f in d.get('fixed', []) if ('property=%s ' % pid) in f]
+    return list(d.get('findings', [])), list(d.get('fixed', []))
 
 
 def case_hash(c):
